@@ -351,9 +351,12 @@ def rowG (E : RegexEngine) (K : IdentK) (d : Doc) (cols : List Str) :
       match (cache[i]?).join with
       | some _ => some cache
       | none =>
-        match d.find (cols.getD i []) with
-        | some v => some (cacheSet cache i v)
-        | none => none
+        match cols[i]? with
+        | none => none                      -- source: `columns[i]` panics (row wider than columns)
+        | some col =>
+          match d.find col with
+          | some v => some (cacheSet cache i v)
+          | none => none
     match filled with
     | none => (.m, cache)
     | some cache' =>
@@ -387,7 +390,7 @@ def passRowG (E : RegexEngine) (K : IdentK) (v : Value) (cols : List Str) :
   | some e :: cells, i =>
     match v with
     | .obj kvs =>
-      (match solveG E K (.pass (objFind kvs (cols.getD i []))) e with
+      (match solveG E K (.pass ((cols[i]?).bind (objFind kvs))) e with
        | .t => passRowG E K v cols cells (i + 1)
        | r => r)
     | _ => passRowG E K v cols cells (i + 1)
